@@ -124,7 +124,29 @@ structure Agree (m : Mon) (x : MS) : Prop where
   defs : m.defs = x.defs
   ghost : ∀ id, m.get (some id) = toG (ghost x.c.tl.log id)
   prev : ∀ p, m.prev = some p → ∃ ok eq, p = modelObs x.c x.defs ok eq
-  first : m.prev = none → x.defs = []
+  first : m.prev = none → x.defs = [] ∧ ∀ r, OZ.Access.getRoleAdmin x.c.ac r = none
+
+/-! ### the constructor leaves every role without an admin role -/
+
+theorem grantOrKeep_roleAdmin (s : AC) (a r c : Nat) : (grantOrKeep s a r c).roleAdmin = s.roleAdmin := by
+  unfold grantOrKeep
+  cases h : OZ.Access.grantRoleNoAuth s a r c with
+  | error _ => rfl
+  | ok s' => exact (OZ.Access.grantRoleNoAuth_rest h).1
+
+theorem foldl_roleAdmin {α : Type} (f : AC → α → AC) (hf : ∀ s x, (f s x).roleAdmin = s.roleAdmin) (l : List α) (s : AC) :
+    (l.foldl f s).roleAdmin = s.roleAdmin := by
+  induction l generalizing s with
+  | nil => rfl
+  | cons x xs ih => rw [List.foldl_cons, ih, hf]
+
+theorem construct_roleAdmin_none (now maxTtl self minDelay : Nat) (ps es : List Nat) (admin : Option Nat) (r : Nat) :
+    OZ.Access.getRoleAdmin (construct now maxTtl self minDelay ps es admin).ac r = none := by
+  unfold OZ.Access.getRoleAdmin construct
+  simp only
+  rw [foldl_roleAdmin _ (fun s x => grantOrKeep_roleAdmin s x _ _),
+    foldl_roleAdmin _ (fun s x => by rw [grantOrKeep_roleAdmin, grantOrKeep_roleAdmin])]
+  rfl
 
 /-! ### ghost lookup -/
 
